@@ -192,6 +192,23 @@ def install(M):
         raise Unsupported('try_fold / try_for_each')
     pat(r'^<.* as Iterator>::try_(fold|for_each)$', it_try_unsupported)
 
+    # ---------------- references to scalars, AsRef / Borrow, the `?` operator
+    def ref_eq(I, a, b):
+        return v_eq(deref(a), deref(b))
+    pat(r'^<&+(mut )?(char|u8|u16|u32|u64|usize|bool) as PartialEq(<&+(mut )?\w+>)?>::eq$', ref_eq)
+    pat(r'^<&+(mut )?(char|u8|u16|u32|u64|usize|bool) as PartialEq(<&+(mut )?\w+>)?>::ne$', lambda I, a, b: v_not(ref_eq(I, a, b)))
+    pat(r'^<(Cow<str>|String|str|&str|Box<str>) as (AsRef|Borrow)<str>>::(as_ref|borrow)$', lambda I, s: as_str(s))
+    pat(r'^<(Vec<.*>|\[.*\]) as (AsRef|Borrow)<\[.*\]>>::(as_ref|borrow)$', lambda I, v: Slice(*as_list(v)))
+
+    def try_branch(I, x):
+        if x.ty == 'Option':
+            return Enum('ControlFlow', 0, [x.f[0]]) if x.v == 1 else Enum('ControlFlow', 1, [NONE()])
+        if x.ty == 'Result':
+            return Enum('ControlFlow', 0, [x.f[0]]) if x.v == 0 else Enum('ControlFlow', 1, [Enum('Result', 1, [x.f[0]])])
+        raise Unsupported('Try::branch on ' + x.ty)
+    pat(r'^<(Option|Result)<.*> as (std::ops::)?Try>::branch$', try_branch)
+    pat(r'^<(Option|Result)<.*> as (std::ops::)?FromResidual(<.*>)?>::from_residual$', lambda I, r: r)
+
     # ---------------- bool / Option / Result
     reg('core::bool::<impl bool>::then', lambda I, b, clo: Some(I.call_closure(Ptr([clo], 0), [])) if I.branch(b) else NONE())
     reg('core::bool::<impl bool>::then_some', lambda I, b, v: Some(v) if I.branch(b) else NONE())
